@@ -5,7 +5,7 @@ From Coq Require Import ZArith List Bool Lia.
 From EC Require Import Lib.Outcome Lib.U64 Lib.ListW Model.Msgs Model.Replica Model.ReplicaRun Model.Protocol
   Model.ProtocolSync Proofs.ProtocolRefinesExec Proofs.ProtocolRefinesExample
   Proofs.ProtocolLive Proofs.ProtocolLiveInv Proofs.ProtocolLiveExample Proofs.ProtocolLiveCatch
-  Proofs.ProtocolLiveNoStop.
+  Proofs.ProtocolLiveNoStop Proofs.ProtocolLiveCommitStep Proofs.ProtocolLiveCommitLock Proofs.ProtocolLiveCommit.
 Import ListNotations.
 Open Scope Z_scope.
 
@@ -239,4 +239,212 @@ Proof.
     assert (Hb : forallb (fun m => msg_view (m_msg m) + 5 <? U64) (g_soup (ginit ex_P)) = true) by (vm_compute; reflexivity).
     apply Z.ltb_lt. exact (Forall_forallb _ _ Hb m Hin).
   - intros k Hk. apply ex_P_hon in Hk. repeat (destruct Hk as [<-|Hk]; [vm_compute; reflexivity|]). destruct Hk.
+Qed.
+
+(* ================================================================== *)
+(* (d), as it holds of the model: a view in which every honest node waits in phase Prepare,
+   with the block store at the proposed number, and with ONE proposal of the view's leader on
+   the network, is decided within two synchronous rounds: every honest node stores the block
+   and enters the next view.  ("The leader is ready" is not enough: a proposal sent during a
+   round in which the nodes did not enter the view arrives after their view timers fired.) *)
+Definition proposal_on_network (P : params) (pay : Z -> Z) (s : gstate) (V n : Z) : Prop :=
+  exists j mv,
+    justification_view (E := unit) true j = Ok mv /\ vnum mv = V /\
+    justification_verify (p_g P) (p_e P) (p_C P) j = Ok tt /\
+    get_implied_block (E := unit) true (p_C P) (p_first P) j = Ok (n, None) /\
+    In {| m_key := cleader (pcfg P 0) V; m_sig_ok := true; m_msg := MProposal (Some (pay n)) j |} (g_soup s) /\
+    (* every proposal for view V under the leader's valid signature is this one *)
+    (forall m p' j' mv', In m (g_soup s) -> m_msg m = MProposal p' j' -> m_key m = cleader (pcfg P 0) V ->
+       m_sig_ok m = true -> justification_view (E := unit) true j' = Ok mv' -> vnum mv' = V ->
+       justification_verify (p_g P) (p_e P) (p_C P) j' = Ok tt ->
+       p' = Some (pay n) /\ j' = j).
+
+Definition waiting (P : params) (s : gstate) (V n : Z) : Prop :=
+  forall k, honestb P k = true ->
+    up s k /\ hview s k = V /\ r_phase (n_live (g_node s k)) = Prepare /\ height s k = n.
+
+Definition C06_view_commits : Prop :=
+  forall P pay fetch, params_ok P -> env_ok P pay -> forall s V n, preach P s -> headroom P s 4 ->
+  0 < V -> waiting P s V n -> proposal_on_network P pay s V n ->
+  forall k, honestb P k = true ->
+    up (sync_rounds P pay fetch 2 s) k /\ V < hview (sync_rounds P pay fetch 2 s) k /\
+    height s k < height (sync_rounds P pay fetch 2 s) k.
+
+Theorem view_commits_holds : C06_view_commits.
+Proof.
+  intros P pay fetch HP He s V n Hr (Hd & Hs) HV Hw (j & mv & Hjv & Hmv & Hjver & Himp & Hin & Huq) k Hk.
+  destruct (Hw k Hk) as (Hu & Hv & _ & Hh).
+  assert (Hf : 0 <= p_first P) by apply He.
+  assert (Hfn : p_first P <= n).
+  { destruct (preach_NC P s Hf Hr k) as [(_ & A2 & _) _].
+    destruct (ProtocolRefinesInv.preach_inv P HP s Hr) as [a G].
+    pose proof (ProtocolRefinesInv.ni_first _ _ _ _ _ (ProtocolRefinesInv.gi_node _ _ _ G k Hk)) as E.
+    unfold height in Hh. rewrite E in A2. lia. }
+  assert (HdV : p_first P + V + 4 < U64).
+  { specialize (Hd k Hk). rewrite (up_dview P HP s k Hr Hk Hu), Hv in Hd. exact Hd. }
+  destruct (commit_two_rounds P HP pay fetch He V n j mv Hjv Hmv Hjver Himp Hfn HV s Hr (U64 - 3)
+              ltac:(lia) ltac:(lia) ltac:(lia)
+              (fun m Hm => ltac:(specialize (Hs m Hm); lia))
+              (fun k0 Hk0 => ltac:(destruct (Hw k0 Hk0) as (A & B & C & D); unfold height in D; repeat split; auto; lia))
+              Hin Huq k Hk) as (H1 & H2 & H3).
+  split; [exact H1|]. split; [exact H2|]. rewrite Hh. unfold height. exact H3.
+Qed.
+
+(* consecutive views with honest leaders, starting from such a view: one block every two
+   rounds, and the honest nodes stay in lockstep *)
+Definition C06_progress_honest_leaders : Prop :=
+  forall P pay fetch (r : nat), params_ok P -> env_ok P pay -> forall s V n, preach P s ->
+  headroom P s (Z.of_nat r + 2) -> 0 < V -> waiting P s V n -> proposal_on_network P pay s V n ->
+  (forall i, (1 <= i < r)%nat -> honestb P (cleader (pcfg P 0) (V + Z.of_nat i)) = true) ->
+  forall k, honestb P k = true ->
+    up (sync_rounds P pay fetch (2 * r) s) k /\
+    hview (sync_rounds P pay fetch (2 * r) s) k = V + Z.of_nat r /\
+    height s k + Z.of_nat r <= height (sync_rounds P pay fetch (2 * r) s) k.
+
+Theorem progress_honest_leaders_holds : C06_progress_honest_leaders.
+Proof.
+  intros P pay fetch r HP He s V n Hr (Hd & Hs) HV Hw Hpn Hhon k Hk.
+  destruct (Hw k Hk) as (Hu & Hv & _ & Hh).
+  assert (Hf : 0 <= p_first P) by apply He.
+  assert (Hfn : p_first P <= n).
+  { destruct (preach_NC P s Hf Hr k) as [(_ & A2 & _) _].
+    destruct (ProtocolRefinesInv.preach_inv P HP s Hr) as [a G].
+    pose proof (ProtocolRefinesInv.ni_first _ _ _ _ _ (ProtocolRefinesInv.gi_node _ _ _ G k Hk)) as E.
+    unfold height in Hh. rewrite E in A2. lia. }
+  assert (HdV : p_first P + V + (Z.of_nat r + 2) < U64).
+  { specialize (Hd k Hk). rewrite (up_dview P HP s k Hr Hk Hu), Hv in Hd. exact Hd. }
+  destruct (honest_chain P HP pay fetch He (U64 - 2) ltac:(lia) r s V n Hr Hfn HV ltac:(lia) ltac:(lia)
+              (fun m Hm => ltac:(specialize (Hs m Hm); lia))
+              (fun k0 Hk0 => ltac:(destruct (Hw k0 Hk0) as (A & B & C & D); unfold height in D; repeat split; auto; lia))
+              (fun _ => Hpn) Hhon) as (_ & _ & Hlock & _).
+  destruct (Hlock k Hk) as (A & B & _ & D). split; [exact A|]. split; [exact B|].
+  rewrite Hh. unfold height. exact D.
+Qed.
+
+(* a boolean test of [proposal_on_network]: exactly one proposal message on the network, and it
+   is the leader's proposal of the environment's payload for the implied new block *)
+Definition is_prop (m : sgmsg) : bool := match m_msg m with MProposal _ _ => true | _ => false end.
+Definition ponb (P : params) (pay : Z -> Z) (s : gstate) (V n : Z) : bool :=
+  match filter is_prop (g_soup s) with
+  | [m] =>
+      match m_msg m with
+      | MProposal (Some p) j =>
+          (m_key m =? cleader (pcfg P 0) V) && m_sig_ok m && (p =? pay n) &&
+          match @justification_view unit true j with Ok mv => vnum mv =? V | _ => false end &&
+          is_ok (justification_verify (p_g P) (p_e P) (p_C P) j) &&
+          match @get_implied_block unit true (p_C P) (p_first P) j with
+          | Ok (n', None) => n' =? n
+          | _ => false
+          end
+      | _ => false
+      end
+  | _ => false
+  end.
+
+Lemma ponb_spec P pay s V n : ponb P pay s V n = true -> proposal_on_network P pay s V n.
+Proof.
+  unfold ponb. destruct (filter is_prop (g_soup s)) as [|m [|m2 l]] eqn:Ef; try discriminate.
+  destruct m as [mk ms mm]. cbn [m_msg m_key m_sig_ok]. destruct mm as [[p|] j|c|t|j]; try discriminate.
+  intros H.
+  apply andb_true_iff in H. destruct H as [H H6].
+  apply andb_true_iff in H. destruct H as [H H5].
+  apply andb_true_iff in H. destruct H as [H H4].
+  apply andb_true_iff in H. destruct H as [H H3].
+  apply andb_true_iff in H. destruct H as [H1 H2].
+  apply Z.eqb_eq in H1. subst mk. subst ms. apply Z.eqb_eq in H3. subst p.
+  destruct (@justification_view unit true j) as [mv| |] eqn:Ejv; try discriminate.
+  apply Z.eqb_eq in H4.
+  destruct (justification_verify (p_g P) (p_e P) (p_C P) j) as [[]| |] eqn:Ever; try discriminate.
+  destruct (@get_implied_block unit true (p_C P) (p_first P) j) as [[n' [h|]]| |] eqn:Eimp; try discriminate.
+  apply Z.eqb_eq in H6. subst n'.
+  exists j, mv. split; [exact Ejv|]. split; [exact H4|]. split; [exact Ever|]. split; [exact Eimp|].
+  assert (Hf : forall m, In m (g_soup s) -> is_prop m = true ->
+            m = {| m_key := cleader (pcfg P 0) V; m_sig_ok := true; m_msg := MProposal (Some (pay n)) j |}).
+  { intros m Hin Hp. assert (Hm : In m (filter is_prop (g_soup s))) by (apply filter_In; auto).
+    rewrite Ef in Hm. destruct Hm as [<-|[]]. reflexivity. }
+  split.
+  - assert (Hm : In {| m_key := cleader (pcfg P 0) V; m_sig_ok := true; m_msg := MProposal (Some (pay n)) j |}
+                    (filter is_prop (g_soup s))) by (rewrite Ef; left; reflexivity).
+    apply filter_In in Hm. exact (proj1 Hm).
+  - intros m p' j' mv' Hin Em _ _ _ _ _.
+    assert (Hp : is_prop m = true) by (unfold is_prop; rewrite Em; reflexivity).
+    rewrite (Hf m Hin Hp) in Em. cbn [m_msg] in Em. inversion Em. auto.
+Qed.
+
+Definition ex_s1 : gstate := sync_rounds ex_P ex_pay (find_cert ex_P) 1 (ginit ex_P).
+Lemma ex_s1_unfold : ex_s1 = sync_rounds ex_P ex_pay (find_cert ex_P) 1 (ginit ex_P).
+Proof. unfold ex_s1. reflexivity. Qed.
+
+Lemma ex_view_commits_hyps :
+  preach ex_P ex_s1 /\ headroom ex_P ex_s1 4 /\ waiting ex_P ex_s1 1 0 /\ proposal_on_network ex_P ex_pay ex_s1 1 0.
+Proof.
+  split; [apply sync_rounds_reach, PReachInit|]. split; [|split].
+  - split.
+    + intros k Hk. apply ex_P_hon in Hk. repeat (destruct Hk as [<-|Hk]; [vm_compute; reflexivity|]). destruct Hk.
+    + intros m Hin.
+      assert (Hb : forallb (fun m => msg_view (m_msg m) + 4 <? U64) (g_soup ex_s1) = true) by (vm_compute; reflexivity).
+      apply Z.ltb_lt. exact (Forall_forallb _ _ Hb m Hin).
+  - intros k Hk. apply ex_P_hon in Hk.
+    repeat (destruct Hk as [<-|Hk]; [vm_compute; repeat split; reflexivity|]). destruct Hk.
+  - apply ponb_spec. vm_compute. reflexivity.
+Qed.
+
+Lemma ex_honest_leaders : forall i, (1 <= i < 2)%nat ->
+  honestb ex_P (cleader (pcfg ex_P 0) (1 + Z.of_nat i)) = true.
+Proof. intros i Hi. assert (i = 1%nat) by lia. subst i. vm_compute. reflexivity. Qed.
+
+Lemma ex_headroom_s1 : headroom ex_P ex_s1 (Z.of_nat 2 + 2).
+Proof. exact (proj1 (proj2 ex_view_commits_hyps)). Qed.
+
+(* ================================================================== *)
+(* the corrected (d) with "the leader is ready" is still false for three rounds: if the leader
+   has been notified but has not proposed when the round starts, its proposal is sent during
+   a round in which nobody enters the view, so all view timers fire at the end of that round
+   and the proposal is rejected in the next one (phase Timeout); the block is committed in the
+   following view, in round 4 of this run *)
+Definition ex_ops_ready : list xop :=
+  flat_map (fun i => map (fun k => XDeliver k i) [1; 2; 3; 4]) [0; 1; 2; 3]%nat.
+
+Definition ready_chk (s : gstate) : bool :=
+  forallb (fun k => (p_first ex_P + dview s k + (Z.of_nat 3 + 2) <? U64) && n_alive (g_node s k) &&
+                    (hview s k =? 1) &&
+                    match r_phase (n_live (g_node s k)) with PCommit => false | _ => true end) [1; 2; 3; 4] &&
+  forallb (fun m => msg_view (m_msg m) + (Z.of_nat 3 + 2) <? U64) (g_soup s) &&
+  fetch_ok_runb ex_P ex_pay (find_cert ex_P) s 3 &&
+  match n_notify (g_node s (cleader (pcfg ex_P 0) 1)) with
+  | Some j => match @justification_view unit true j with Ok mv => vnum mv =? 1 | _ => false end
+  | None => false
+  end &&
+  (height (sync_rounds ex_P ex_pay (find_cert ex_P) 3 s) 1 <=? height s 1).
+
+Lemma ex_ready_obs : option_map ready_chk (xrun ex_P (ginit ex_P) ex_ops_ready) = Some true.
+Proof. vm_compute. reflexivity. Qed.
+
+Theorem aligned_view_commits'_3_refuted : ~ C06_aligned_view_commits' 3.
+Proof.
+  intros H. destruct (xrun_some_reach _ _ _ _ ex_ready_obs) as (s & Hr & Hc).
+  unfold ready_chk in Hc.
+  apply andb_true_iff in Hc. destruct Hc as [Hc C5].
+  apply andb_true_iff in Hc. destruct Hc as [Hc C4].
+  apply andb_true_iff in Hc. destruct Hc as [Hc C3].
+  apply andb_true_iff in Hc. destruct Hc as [C1 C2].
+  assert (Hk : forall k, honestb ex_P k = true ->
+            p_first ex_P + dview s k + (Z.of_nat 3 + 2) < U64 /\ up s k /\ hview s k = 1 /\
+            (r_phase (n_live (g_node s k)) = Prepare \/ r_phase (n_live (g_node s k)) = PTimeout)).
+  { intros k Hk. apply ex_P_hon in Hk. pose proof (Forall_forallb _ _ C1 k Hk) as Hb. cbv beta in Hb.
+    apply andb_true_iff in Hb. destruct Hb as [Hb B4]. apply andb_true_iff in Hb. destruct Hb as [Hb B3].
+    apply andb_true_iff in Hb. destruct Hb as [B1 B2].
+    split; [apply Z.ltb_lt; exact B1|]. split; [exact B2|]. split; [apply Z.eqb_eq; exact B3|].
+    destruct (r_phase (n_live (g_node s k))); [left; reflexivity|discriminate|right; reflexivity]. }
+  specialize (H ex_P ex_pay (find_cert ex_P) ex_params_ok ex_env_ok s 1 Hr).
+  assert (Hh : headroom ex_P s (Z.of_nat 3 + 2)).
+  { split; [intros k Hk0; apply (Hk k Hk0)|]. intros m Hin. apply Z.ltb_lt. exact (Forall_forallb _ _ C2 m Hin). }
+  assert (Hal : aligned ex_P s 1).
+  { intros k Hk0. destruct (Hk k Hk0) as (_ & A & B & C). auto. }
+  assert (Hlr : leader_ready ex_P s 1).
+  { unfold leader_ready. destruct (n_notify (g_node s (cleader (pcfg ex_P 0) 1))) as [j|]; [|discriminate].
+    destruct (@justification_view unit true j) as [mv| |] eqn:Ejv; try discriminate.
+    exists j, mv. split; [reflexivity|]. split; [exact Ejv|apply Z.eqb_eq; exact C4]. }
+  specialize (H Hh (fetch_ok_runb_spec _ _ _ _ _ C3) Hal eq_refl Hlr 1 eq_refl).
+  apply Z.leb_le in C5. lia.
 Qed.
